@@ -42,13 +42,12 @@ theorem leafBlen_const (sty : STy) (s : LExpr) (hs : fixedLenS sty = some s) (m 
 
 theorem uint_row_sound (k : Nat) (T : GoType)
     (o1 : T.deserialize.isOpaque = false) (o2 : T.serialize.isOpaque = false) (o3 : T.byteLength.isOpaque = false)
-    (o4 : T.fixedLength.isOpaque = false) (o5 : T.hashTreeRoot.isOpaque = false)
+    (o4 : T.fixedLength.isOpaque = false)
     (h1 : leafMethodOk owners views (.uint k) n!"Deserialize" T.deserialize = true)
     (h2 : leafMethodOk owners views (.uint k) n!"Serialize" T.serialize = true)
     (h3 : leafMethodOk owners views (.uint k) n!"ByteLength" T.byteLength = true)
-    (h4 : leafMethodOk owners views (.uint k) n!"FixedLength" T.fixedLength = true)
-    (h5 : leafMethodOk owners views (.uint k) n!"HashTreeRoot" T.hashTreeRoot = true) :
-    ∃ L, denoteLeaf H c owners views T = some L ∧ L.Meets H (.uint k) := by
+    (h4 : leafMethodOk owners views (.uint k) n!"FixedLength" T.fixedLength = true) :
+    ∃ L, denoteLeafCodec c owners views T = some L ∧ L.Meets (.uint k) := by
   have hs : fixedLenS (.uint k) = some (.lit k) := rfl
   have e3 := leafBlen_const c owners views (.uint k) _ hs _ o3 h3
   have e4 := leafLen_sound c owners views (.uint k) _ hs n!"FixedLength" (Or.inr rfl) _ o4 h4
@@ -75,34 +74,23 @@ theorem uint_row_sound (k : Nat) (T : GoType)
     case bits v l =>
       simp only [Bool.and_eq_true, beq_iff_eq] at h2
       simp [leafSer, h2.2]
-  have e5 : leafRoot H c T.hashTreeRoot = some padTo32 := by
-    cases hm : T.hashTreeRoot <;> simp only [hm, leafMethodOk, Method.isOpaque] at h5 o5 <;> (try (simp at o5)) <;>
-      (try (simp at h5; done))
-    case basic v k' =>
-      simp only [Bool.and_eq_true, beq_iff_eq, Bool.or_eq_true] at h5
-      obtain ⟨_, hv⟩ := h5
-      have hv' : v = n!"ViewHashTreeRoot" := by
-        rcases hv with ⟨⟨h, _⟩ | ⟨h, _⟩⟩ | ⟨_, hv⟩ <;> first | exact hv | (simp at h)
-      subst hv'
-      simp [leafRoot]
-  refine ⟨⟨goReadExact k, id, fun _ => (STy.eval c (.uint k)).fixedLen, (STy.eval c (.uint k)).fixedLen, padTo32⟩,
-    by simp only [denoteLeaf, e1, e2, e3, e4, e5], ?_⟩
+  refine ⟨⟨goReadExact k, id, fun _ => (STy.eval c (.uint k)).fixedLen, (STy.eval c (.uint k)).fixedLen⟩,
+    by simp only [denoteLeafCodec, e1, e2, e3, e4], ?_⟩
   refine ⟨fun bs => readExact_uint k bs, by simp [STy.eval], ?_⟩
   intro v hw
   cases v <;> simp only [WF] at hw
-  simp [STy.eval, Ty.fixedLen, Ty.fixedLen?, encode, byteLength, htr]
+  simp [STy.eval, Ty.fixedLen, Ty.fixedLen?, byteLength]
 
 /-! #### byte arrays (`type BLSPubkey [48]byte`, `Version`, `LogsBloom`, …) -/
 
 theorem bytesN_row_sound (e : LExpr) (T : GoType)
     (o1 : T.deserialize.isOpaque = false) (o2 : T.serialize.isOpaque = false) (o3 : T.byteLength.isOpaque = false)
-    (o4 : T.fixedLength.isOpaque = false) (o5 : T.hashTreeRoot.isOpaque = false)
+    (o4 : T.fixedLength.isOpaque = false)
     (h1 : leafMethodOk owners views (.bytesN e) n!"Deserialize" T.deserialize = true)
     (h2 : leafMethodOk owners views (.bytesN e) n!"Serialize" T.serialize = true)
     (h3 : leafMethodOk owners views (.bytesN e) n!"ByteLength" T.byteLength = true)
-    (h4 : leafMethodOk owners views (.bytesN e) n!"FixedLength" T.fixedLength = true)
-    (h5 : leafMethodOk owners views (.bytesN e) n!"HashTreeRoot" T.hashTreeRoot = true) :
-    ∃ L, denoteLeaf H c owners views T = some L ∧ L.Meets H (.bytesN (e.eval c)) := by
+    (h4 : leafMethodOk owners views (.bytesN e) n!"FixedLength" T.fixedLength = true) :
+    ∃ L, denoteLeafCodec c owners views T = some L ∧ L.Meets (.bytesN (e.eval c)) := by
   have hs : fixedLenS (.bytesN e) = some e := rfl
   have e3 := leafBlen_const c owners views (.bytesN e) _ hs _ o3 h3
   have e4 := leafLen_sound c owners views (.bytesN e) _ hs n!"FixedLength" (Or.inr rfl) _ o4 h4
@@ -129,22 +117,12 @@ theorem bytesN_row_sound (e : LExpr) (T : GoType)
     case bits v l =>
       simp only [Bool.and_eq_true, beq_iff_eq] at h2
       simp [leafSer, h2.2]
-  obtain ⟨t, e5, htok⟩ : ∃ t, leafRoot H c T.hashTreeRoot = some (fun raw => htEval H raw t) ∧ htOk (e.eval c) t = true := by
-    cases hm : T.hashTreeRoot <;> simp only [hm, leafMethodOk, Method.isOpaque] at h5 o5 <;> (try (simp at o5)) <;>
-      (try (simp at h5; done))
-    case htrTree n t =>
-      simp only [Bool.and_eq_true, beq_iff_eq] at h5
-      have hn := isLit_sound e n h5.2 c
-      exact ⟨t, by simp [leafRoot], by rw [hn]; exact h5.1.2⟩
-  refine ⟨⟨goReadExact (e.eval c), id, fun _ => (STy.eval c (.bytesN e)).fixedLen, (STy.eval c (.bytesN e)).fixedLen,
-      fun raw => htEval H raw t⟩, by simp only [denoteLeaf, e1, e2, e3, e4, e5], ?_⟩
+  refine ⟨⟨goReadExact (e.eval c), id, fun _ => (STy.eval c (.bytesN e)).fixedLen, (STy.eval c (.bytesN e)).fixedLen⟩,
+    by simp only [denoteLeafCodec, e1, e2, e3, e4], ?_⟩
   refine ⟨fun bs => readExact_bytesN _ bs, by simp [STy.eval], ?_⟩
   intro v hw
   cases v <;> simp only [WF] at hw
-  rename_i bs
-  refine ⟨rfl, by simp [STy.eval, Ty.fixedLen, Ty.fixedLen?, byteLength], ?_⟩
-  simp only [encode]
-  exact htOk_sound H _ t bs htok hw
+  exact ⟨rfl, by simp [STy.eval, Ty.fixedLen, Ty.fixedLen?, byteLength]⟩
 
 /-! #### bitfields and byte lists -/
 
@@ -172,13 +150,12 @@ theorem bitsLen_sound (sty : STy) (kind : Name) (lim : LExpr) (which : Name)
 
 theorem bitvector_row_sound (lim : LExpr) (T : GoType)
     (o1 : T.deserialize.isOpaque = false) (o2 : T.serialize.isOpaque = false) (o3 : T.byteLength.isOpaque = false)
-    (o4 : T.fixedLength.isOpaque = false) (o5 : T.hashTreeRoot.isOpaque = false)
+    (o4 : T.fixedLength.isOpaque = false)
     (h1 : bitsMethodOk owners views (.bitvector lim) n!"bitvector" lim n!"Deserialize" T.deserialize = true)
     (h2 : bitsMethodOk owners views (.bitvector lim) n!"bitvector" lim n!"Serialize" T.serialize = true)
     (h3 : bitsMethodOk owners views (.bitvector lim) n!"bitvector" lim n!"ByteLength" T.byteLength = true)
-    (h4 : bitsMethodOk owners views (.bitvector lim) n!"bitvector" lim n!"FixedLength" T.fixedLength = true)
-    (h5 : bitsMethodOk owners views (.bitvector lim) n!"bitvector" lim n!"HashTreeRoot" T.hashTreeRoot = true) :
-    ∃ L, denoteLeaf H c owners views T = some L ∧ L.Meets H (.bitvector (lim.eval c)) := by
+    (h4 : bitsMethodOk owners views (.bitvector lim) n!"bitvector" lim n!"FixedLength" T.fixedLength = true) :
+    ∃ L, denoteLeafCodec c owners views T = some L ∧ L.Meets (.bitvector (lim.eval c)) := by
   have hs : fixedLenS (.bitvector lim) = some (.div (.add lim (.lit 7)) (.lit 8)) := rfl
   have hfl : (STy.eval c (.bitvector lim)).fixedLen = (lim.eval c + 7) / 8 := by simp [STy.eval, Ty.fixedLen, Ty.fixedLen?]
   -- lengths
@@ -228,33 +205,12 @@ theorem bitvector_row_sound (lim : LExpr) (T : GoType)
       rcases h2.2 with ⟨_, hv⟩ | ⟨h, _⟩
       · simp [leafSer, hv]
       · simp at h
-  obtain ⟨r, e5, hr⟩ : ∃ r, leafRoot H c T.hashTreeRoot = some r ∧
-      ∀ bits : List Bool, bits.length = lim.eval c →
-        r (encode (.bitvector (lim.eval c)) (.bits bits)) = htr H (.bitvector (lim.eval c)) (.bits bits) := by
-    cases hm : T.hashTreeRoot <;> simp only [hm, bitsMethodOk, Method.isOpaque] at h5 o5 <;> (try (simp at o5)) <;>
-      (try (simp [lengthMethodOk] at h5; done))
-    case bits v limit =>
-      simp at h5
-      exact ⟨goBytesRoot H, by simp [leafRoot, h5], fun bits _ => bytesRoot_bitvector H _ bits⟩
-    case htrTree n t =>
-      simp only [Bool.and_eq_true, beq_iff_eq] at h5
-      obtain ⟨⟨_, hfix⟩, hok⟩ := h5
-      unfold isFixedLenOf at hfix
-      simp only [hs] at hfix
-      have hn := sameLen_sound _ _ hfix c
-      simp only [LExpr.eval] at hn
-      refine ⟨fun raw => htEval H raw t, by simp [leafRoot], ?_⟩
-      intro bits _
-      have hlen : (encode (.bitvector (lim.eval c)) (.bits bits)).length = n := by
-        simp [encode, natToLE_length, hn]
-      show htEval H (encode (.bitvector (lim.eval c)) (.bits bits)) t = _
-      rw [htOk_sound H n t _ hok hlen, ← bytesRoot_bytesN H n _ hlen, bytesRoot_bitvector]
-  refine ⟨⟨goReadBitVector (lim.eval c), id, fun _ => (lim.eval c + 7) / 8, (lim.eval c + 7) / 8, r⟩,
-    by simp only [denoteLeaf, e1, e2, e3, e4, e5], ?_⟩
+  refine ⟨⟨goReadBitVector (lim.eval c), id, fun _ => (lim.eval c + 7) / 8, (lim.eval c + 7) / 8⟩,
+    by simp only [denoteLeafCodec, e1, e2, e3, e4], ?_⟩
   refine ⟨fun bs => readBitVector_spec _ bs, by simp [Ty.fixedLen, Ty.fixedLen?], ?_⟩
   intro v hw
   cases v <;> simp only [WF] at hw
-  exact ⟨rfl, by simp [byteLength], hr _ hw⟩
+  exact ⟨rfl, by simp [byteLength]⟩
 
 /-- length methods of a variable-size bitfield row: `len(raw)` and `0` -/
 theorem varLen_sound (sty : STy) (kind : Name) (hk : kind ≠ n!"bitvector") (lim : LExpr) (hv : fixedLenS sty = none) (T : GoType)
@@ -279,13 +235,12 @@ theorem varLen_sound (sty : STy) (kind : Name) (hk : kind ≠ n!"bitvector") (li
 
 theorem bitlist_row_sound (lim : LExpr) (T : GoType)
     (o1 : T.deserialize.isOpaque = false) (o2 : T.serialize.isOpaque = false) (o3 : T.byteLength.isOpaque = false)
-    (o4 : T.fixedLength.isOpaque = false) (o5 : T.hashTreeRoot.isOpaque = false)
+    (o4 : T.fixedLength.isOpaque = false)
     (h1 : bitsMethodOk owners views (.bitlist lim) n!"bitlist" lim n!"Deserialize" T.deserialize = true)
     (h2 : bitsMethodOk owners views (.bitlist lim) n!"bitlist" lim n!"Serialize" T.serialize = true)
     (h3 : bitsMethodOk owners views (.bitlist lim) n!"bitlist" lim n!"ByteLength" T.byteLength = true)
-    (h4 : bitsMethodOk owners views (.bitlist lim) n!"bitlist" lim n!"FixedLength" T.fixedLength = true)
-    (h5 : bitsMethodOk owners views (.bitlist lim) n!"bitlist" lim n!"HashTreeRoot" T.hashTreeRoot = true) :
-    ∃ L, denoteLeaf H c owners views T = some L ∧ L.Meets H (.bitlist (lim.eval c)) := by
+    (h4 : bitsMethodOk owners views (.bitlist lim) n!"bitlist" lim n!"FixedLength" T.fixedLength = true) :
+    ∃ L, denoteLeafCodec c owners views T = some L ∧ L.Meets (.bitlist (lim.eval c)) := by
   obtain ⟨e3, e4⟩ := varLen_sound c owners views (.bitlist lim) n!"bitlist" (by decide) lim rfl T o3 o4 h3 h4
   have e1 : leafDes c T.deserialize =
       some (fun bs => if goReadBitList (lim.eval c) bs then some bs else none) := by
@@ -301,15 +256,8 @@ theorem bitlist_row_sound (lim : LExpr) (T : GoType)
     case bits v limit =>
       simp at h2
       simp [leafSer, h2]
-  have e5 : leafRoot H c T.hashTreeRoot = some (goBitListRoot H (lim.eval c)) := by
-    cases hm : T.hashTreeRoot <;> simp only [hm, bitsMethodOk, Method.isOpaque] at h5 o5 <;> (try (simp at o5)) <;>
-      (try (simp [lengthMethodOk, fixedLenS] at h5; done))
-    case bits v limit =>
-      simp at h5
-      obtain ⟨l, rfl, hl⟩ := limit_eval c lim limit h5.2
-      simp [leafRoot, h5.1, hl]
-  refine ⟨⟨fun bs => if goReadBitList (lim.eval c) bs then some bs else none, id, List.length, 0,
-    goBitListRoot H (lim.eval c)⟩, by simp only [denoteLeaf, e1, e2, e3, e4, e5], ?_⟩
+  refine ⟨⟨fun bs => if goReadBitList (lim.eval c) bs then some bs else none, id, List.length, 0⟩,
+    by simp only [denoteLeafCodec, e1, e2, e3, e4], ?_⟩
   refine ⟨?_, by simp [Ty.fixedLen, Ty.fixedLen?], ?_⟩
   · intro bs
     simp only [goReadBitList_eq_decode]
@@ -319,17 +267,16 @@ theorem bitlist_row_sound (lim : LExpr) (T : GoType)
   · intro v hw
     have hl := encode_length _ v hw
     cases v <;> simp only [WF] at hw
-    exact ⟨rfl, hl, bitListRoot_spec H _ _⟩
+    exact ⟨rfl, hl⟩
 
 theorem bytelist_row_sound (lim : LExpr) (T : GoType)
     (o1 : T.deserialize.isOpaque = false) (o2 : T.serialize.isOpaque = false) (o3 : T.byteLength.isOpaque = false)
-    (o4 : T.fixedLength.isOpaque = false) (o5 : T.hashTreeRoot.isOpaque = false)
+    (o4 : T.fixedLength.isOpaque = false)
     (h1 : bitsMethodOk owners views (.byteList lim) n!"bytelist" lim n!"Deserialize" T.deserialize = true)
     (h2 : bitsMethodOk owners views (.byteList lim) n!"bytelist" lim n!"Serialize" T.serialize = true)
     (h3 : bitsMethodOk owners views (.byteList lim) n!"bytelist" lim n!"ByteLength" T.byteLength = true)
-    (h4 : bitsMethodOk owners views (.byteList lim) n!"bytelist" lim n!"FixedLength" T.fixedLength = true)
-    (h5 : bitsMethodOk owners views (.byteList lim) n!"bytelist" lim n!"HashTreeRoot" T.hashTreeRoot = true) :
-    ∃ L, denoteLeaf H c owners views T = some L ∧ L.Meets H (.byteList (lim.eval c)) := by
+    (h4 : bitsMethodOk owners views (.byteList lim) n!"bytelist" lim n!"FixedLength" T.fixedLength = true) :
+    ∃ L, denoteLeafCodec c owners views T = some L ∧ L.Meets (.byteList (lim.eval c)) := by
   obtain ⟨e3, e4⟩ := varLen_sound c owners views (.byteList lim) n!"bytelist" (by decide) lim rfl T o3 o4 h3 h4
   have e1 : leafDes c T.deserialize = some (goReadByteList (lim.eval c)) := by
     cases hm : T.deserialize <;> simp only [hm, bitsMethodOk, Method.isOpaque] at h1 o1 <;> (try (simp at o1)) <;>
@@ -344,6 +291,98 @@ theorem bytelist_row_sound (lim : LExpr) (T : GoType)
     case bits v limit =>
       simp at h2
       simp [leafSer, h2]
+  refine ⟨⟨goReadByteList (lim.eval c), id, List.length, 0⟩,
+    by simp only [denoteLeafCodec, e1, e2, e3, e4], ?_⟩
+  refine ⟨fun bs => readByteList_spec _ bs, by simp [Ty.fixedLen, Ty.fixedLen?], ?_⟩
+  intro v hw
+  cases v <;> simp only [WF] at hw
+  exact ⟨rfl, by simp [encode, byteLength]⟩
+
+/-! #### the `HashTreeRoot` method of the same rows (property C05) -/
+
+theorem uint_root_sound (k : Nat) (T : GoType) (o5 : T.hashTreeRoot.isOpaque = false)
+    (h5 : leafMethodOk owners views (.uint k) n!"HashTreeRoot" T.hashTreeRoot = true) :
+    ∃ r, leafRoot H c T.hashTreeRoot = some r ∧ LeafRootMeets H (.uint k) r := by
+  have e5 : leafRoot H c T.hashTreeRoot = some padTo32 := by
+    cases hm : T.hashTreeRoot <;> simp only [hm, leafMethodOk, Method.isOpaque] at h5 o5 <;> (try (simp at o5)) <;>
+      (try (simp at h5; done))
+    case basic v k' =>
+      simp only [Bool.and_eq_true, beq_iff_eq, Bool.or_eq_true] at h5
+      obtain ⟨_, hv⟩ := h5
+      have hv' : v = n!"ViewHashTreeRoot" := by
+        rcases hv with ⟨⟨h, _⟩ | ⟨h, _⟩⟩ | ⟨_, hv⟩ <;> first | exact hv | (simp at h)
+      subst hv'
+      simp [leafRoot]
+  refine ⟨padTo32, e5, ?_⟩
+  intro v hw
+  cases v <;> simp only [WF] at hw
+  simp [encode, htr]
+
+theorem bytesN_root_sound (e : LExpr) (T : GoType) (o5 : T.hashTreeRoot.isOpaque = false)
+    (h5 : leafMethodOk owners views (.bytesN e) n!"HashTreeRoot" T.hashTreeRoot = true) :
+    ∃ r, leafRoot H c T.hashTreeRoot = some r ∧ LeafRootMeets H (.bytesN (e.eval c)) r := by
+  obtain ⟨t, e5, htok⟩ : ∃ t, leafRoot H c T.hashTreeRoot = some (fun raw => htEval H raw t) ∧ htOk (e.eval c) t = true := by
+    cases hm : T.hashTreeRoot <;> simp only [hm, leafMethodOk, Method.isOpaque] at h5 o5 <;> (try (simp at o5)) <;>
+      (try (simp at h5; done))
+    case htrTree n t =>
+      simp only [Bool.and_eq_true, beq_iff_eq] at h5
+      have hn := isLit_sound e n h5.2 c
+      exact ⟨t, by simp [leafRoot], by rw [hn]; exact h5.1.2⟩
+  refine ⟨fun raw => htEval H raw t, e5, ?_⟩
+  intro v hw
+  cases v <;> simp only [WF] at hw
+  rename_i bs
+  simp only [encode]
+  exact htOk_sound H _ t bs htok hw
+
+theorem bitvector_root_sound (lim : LExpr) (T : GoType) (o5 : T.hashTreeRoot.isOpaque = false)
+    (h5 : bitsMethodOk owners views (.bitvector lim) n!"bitvector" lim n!"HashTreeRoot" T.hashTreeRoot = true) :
+    ∃ r, leafRoot H c T.hashTreeRoot = some r ∧ LeafRootMeets H (.bitvector (lim.eval c)) r := by
+  have hs : fixedLenS (.bitvector lim) = some (.div (.add lim (.lit 7)) (.lit 8)) := rfl
+  obtain ⟨r, e5, hr⟩ : ∃ r, leafRoot H c T.hashTreeRoot = some r ∧
+      ∀ bits : List Bool, bits.length = lim.eval c →
+        r (encode (.bitvector (lim.eval c)) (.bits bits)) = htr H (.bitvector (lim.eval c)) (.bits bits) := by
+    cases hm : T.hashTreeRoot <;> simp only [hm, bitsMethodOk, Method.isOpaque] at h5 o5 <;> (try (simp at o5)) <;>
+      (try (simp [lengthMethodOk] at h5; done))
+    case bits v limit =>
+      simp at h5
+      exact ⟨goBytesRoot H, by simp [leafRoot, h5], fun bits _ => bytesRoot_bitvector H _ bits⟩
+    case htrTree n t =>
+      simp only [Bool.and_eq_true, beq_iff_eq] at h5
+      obtain ⟨⟨_, hfix⟩, hok⟩ := h5
+      unfold isFixedLenOf at hfix
+      simp only [hs] at hfix
+      have hn := sameLen_sound _ _ hfix c
+      simp only [LExpr.eval] at hn
+      refine ⟨fun raw => htEval H raw t, by simp [leafRoot], ?_⟩
+      intro bits _
+      have hlen : (encode (.bitvector (lim.eval c)) (.bits bits)).length = n := by
+        simp [encode, natToLE_length, hn]
+      show htEval H (encode (.bitvector (lim.eval c)) (.bits bits)) t = _
+      rw [htOk_sound H n t _ hok hlen, ← bytesRoot_bytesN H n _ hlen, bytesRoot_bitvector]
+  refine ⟨r, e5, ?_⟩
+  intro v hw
+  cases v <;> simp only [WF] at hw
+  exact hr _ hw
+
+theorem bitlist_root_sound (lim : LExpr) (T : GoType) (o5 : T.hashTreeRoot.isOpaque = false)
+    (h5 : bitsMethodOk owners views (.bitlist lim) n!"bitlist" lim n!"HashTreeRoot" T.hashTreeRoot = true) :
+    ∃ r, leafRoot H c T.hashTreeRoot = some r ∧ LeafRootMeets H (.bitlist (lim.eval c)) r := by
+  have e5 : leafRoot H c T.hashTreeRoot = some (goBitListRoot H (lim.eval c)) := by
+    cases hm : T.hashTreeRoot <;> simp only [hm, bitsMethodOk, Method.isOpaque] at h5 o5 <;> (try (simp at o5)) <;>
+      (try (simp [lengthMethodOk, fixedLenS] at h5; done))
+    case bits v limit =>
+      simp at h5
+      obtain ⟨l, rfl, hl⟩ := limit_eval c lim limit h5.2
+      simp [leafRoot, h5.1, hl]
+  refine ⟨_, e5, ?_⟩
+  intro v hw
+  cases v <;> simp only [WF] at hw
+  exact bitListRoot_spec H _ _
+
+theorem bytelist_root_sound (lim : LExpr) (T : GoType) (o5 : T.hashTreeRoot.isOpaque = false)
+    (h5 : bitsMethodOk owners views (.byteList lim) n!"bytelist" lim n!"HashTreeRoot" T.hashTreeRoot = true) :
+    ∃ r, leafRoot H c T.hashTreeRoot = some r ∧ LeafRootMeets H (.byteList (lim.eval c)) r := by
   have e5 : leafRoot H c T.hashTreeRoot = some (goByteListRoot H (lim.eval c)) := by
     cases hm : T.hashTreeRoot <;> simp only [hm, bitsMethodOk, Method.isOpaque] at h5 o5 <;> (try (simp at o5)) <;>
       (try (simp [lengthMethodOk, fixedLenS] at h5; done))
@@ -351,12 +390,11 @@ theorem bytelist_row_sound (lim : LExpr) (T : GoType)
       simp at h5
       obtain ⟨l, rfl, hl⟩ := limit_eval c lim limit h5.2
       simp [leafRoot, h5.1, hl]
-  refine ⟨⟨goReadByteList (lim.eval c), id, List.length, 0, goByteListRoot H (lim.eval c)⟩,
-    by simp only [denoteLeaf, e1, e2, e3, e4, e5], ?_⟩
-  refine ⟨fun bs => readByteList_spec _ bs, by simp [Ty.fixedLen, Ty.fixedLen?], ?_⟩
+  refine ⟨_, e5, ?_⟩
   intro v hw
   cases v <;> simp only [WF] at hw
-  exact ⟨rfl, by simp [encode, byteLength], by simp only [encode]; exact byteListRoot_spec H _ _⟩
+  simp only [encode]
+  exact byteListRoot_spec H _ _
 
 end
 
